@@ -66,8 +66,12 @@ Fixpoint cross_pairs (ths : list (list string)) : list (string * string) :=
 Definition known_name (warm : bool) (n : string) : bool :=
   match summ_of warm n with Some _ => true | None => false end.
 
+(* the export copy exists: built before the start and never reset *)
+Definition warm_eff (c : c12case) : bool :=
+  k_warm c && negb (existsb (fun th => existsb is_resetter th) (k_threads c)).
+
 Definition predicted (c : c12case) : list field :=
-  let w := k_warm c in
+  let w := warm_eff c in
   if known_name w (o_m1 c) && known_name w (o_m2 c)
   then racy_names w (o_m1 c) (o_m2 c)
   else dedupb Nat.eqb
